@@ -159,6 +159,24 @@ pub fn same<T: Same + ?Sized>(a: &T, b: &T) -> bool {
     a.same_as(b)
 }
 
+/// bounds of the sub-slice of a buffer of `len` elements that is passed as a slice argument:
+/// mostly the whole buffer, sometimes a proper sub-slice, sometimes an EMPTY slice somewhere
+/// inside the buffer (its address is then a real address, unlike that of an empty Vec)
+pub fn sub_bounds(g: &mut Gen, len: usize) -> (usize, usize) {
+    match g.below(10) {
+        0..=5 => (0, len),
+        6 | 7 => {
+            let lo = g.below(len as u64 + 1) as usize;
+            let hi = lo + g.below((len - lo) as u64 + 1) as usize;
+            (lo, hi)
+        }
+        _ => {
+            let at = g.below(len as u64 + 1) as usize;
+            (at, at)
+        }
+    }
+}
+
 pub fn feq64(a: f64, b: f64) -> bool {
     a.to_bits() == b.to_bits()
 }
@@ -356,6 +374,10 @@ pub fn dig_slice<T: Val>(s: &[T], h: &mut Fnv) {
 pub fn gen<T: Val>(seed: u64) -> T {
     T::gen(&mut Gen::new(seed))
 }
+
+/// result aliases, named in `#[int_result(Alias)]`
+pub type ResU<T> = Result<T, UErr>;
+pub type ResIo<T> = Result<T, std::io::Error>;
 
 /// user error type with an integer encoding
 #[derive(Clone, Copy, PartialEq, Debug)]
